@@ -2,6 +2,7 @@
   Helper lemmas for property C12 (Model/Hostile.lean).  Core only.
 -/
 import AGV.Model.Hostile
+import AGV.Lemmas.PegMono
 
 namespace AGV.Lemmas.Hostile
 open AGV.Model.Hostile
@@ -384,6 +385,256 @@ theorem value_nest_oof (n : Nat) : ∀ (f : Nat) (c : Ctx) (p : Nat) (rest : Lis
     | succ f =>
       refine ident_oof _ _ _ _ _ _ find_value (by decide) (by decide) (by decide) ?_
       rw [bodyCtx_value]; exact L1 f (by omega)
+
+-- ------------------------------------------------------------------ the descent on the whole witness document
+
+/-! From `executable_document` on `{j(x:` `[`ⁿ `]`ⁿ `)}`.  The prefix is evaluated symbolically: by
+    fuel monotonicity (`Lemmas/PegMono.lean`) ONE evaluation of a sibling expression at a concrete
+    depth decides it at every depth (`Dec`: cut off, or that result), and `Cut` ("cut off at every
+    depth ≤ N") is pushed up one interpreter level at a time. -/
+
+open AGV.Lemmas.PegMono
+
+/-- a character that `hidden::skip` does not consume -/
+def Plain (ch : Char) : Prop :=
+  ' ' ≠ ch ∧ ',' ≠ ch ∧ '\t' ≠ ch ∧ Char.ofNat 65279 ≠ ch ∧ '\r' ≠ ch ∧ '\n' ≠ ch ∧ '#' ≠ ch
+
+set_option maxRecDepth 8000 in
+theorem skip_plain_eval (c : Ctx) (p : Nat) (ch : Char) (t : List Char) (h : Plain ch) :
+    eval G 13 { c with atom := .atomic } skipExpr p (ch :: t) = .ok p (ch :: t) [] := by
+  obtain ⟨h1, h2, h3, h4, h5, h6, h7⟩ := h
+  simp [eval, skipExpr, find_ws, find_comment, find_lt, charClass, r_WHITESPACE, r_COMMENT, r_line_terminator, matchStr, h1, h2, h3, h4, h5, h6, h7]
+
+theorem find_alias : findRule G "alias" = some r_alias := by rfl
+theorem find_nod : findRule G "named_operation_definition" = some r_named_operation_definition := by rfl
+theorem find_optype : findRule G "operation_type" = some r_operation_type := by rfl
+
+set_option maxRecDepth 8000 in
+theorem name_eval (p : Nat) (a b : Char) (t : List Char) (ha : a = 'j' ∨ a = 'x') (hb : b = '(' ∨ b = ':') :
+    eval G 10 {} (.ident "name") p (a :: b :: t) = .ok (p + 1) (b :: t) [Pair.mk "name" p (p + 1) []] := by
+  have e1 : (Atomicity.atomic != Atomicity.atomic) = false := by decide
+  have e2 : (Atomicity.non != Atomicity.atomic) = true := by decide
+  rcases ha with rfl | rfl <;> rcases hb with rfl | rfl <;>
+  simp [eval, e1, e2, find_name, find_name_start, charClass, r_name, r_name_start, matchStr, bodyCtx, isAsciiAlpha, isAsciiDigit, emits]
+
+set_option maxRecDepth 8000 in
+theorem nod_eval (p : Nat) (t : List Char) :
+    eval G 10 {} (.ident "named_operation_definition") p ('{' :: t) = .fail := by
+  simp [eval, find_nod, find_optype, charClass, r_named_operation_definition, r_operation_type, matchStr]
+
+theorem plain_of (ch : Char) (h : ch = '{' ∨ ch = 'j' ∨ ch = '(' ∨ ch = 'x' ∨ ch = ':' ∨ ch = '[' ∨ ch = ')') :
+    Plain ch := by
+  unfold Plain
+  rcases h with rfl | rfl | rfl | rfl | rfl | rfl | rfl <;> decide
+
+theorem opt_of_fail (f c a p s) (h : eval G f c a p s = .fail) : eval G (f + 1) c (.opt a) p s = .ok p s [] := by
+  simp [eval, h]
+
+theorem ident_of_fail (f c n r p s) (hr : findRule G n = some r) (hcc : charClass n = none)
+    (h1 : n ≠ "SOI") (h2 : n ≠ "EOI") (h : eval G f (bodyCtx c r) r.expr p s = .fail) :
+    eval G (f + 1) c (.ident n) p s = .fail := by
+  simp [eval, h1, h2, hcc, hr, h]
+
+theorem seq_fail_second (f c a b p s p1 s1 ps1) (ha : eval G f c a p s = .ok p1 s1 ps1)
+    (hs : eval G f { c with atom := .atomic } skipExpr p1 s1 = .ok p1 s1 [])
+    (hb : eval G f c b p1 s1 = .fail) : eval G (f + 1) c (.seq a b) p s = .fail := by
+  by_cases hc : c.atom = .non
+  · simp [eval, ha, hc, hs, hb]
+  · simp [eval, ha, hc, hb]
+
+theorem bodyCtx_alias (c : Ctx) : bodyCtx c r_alias = c := by simp [bodyCtx, r_alias]
+
+theorem optalias_eval (p : Nat) (t : List Char) :
+    eval G 16 {} (.opt (.ident "alias")) p ('j' :: '(' :: t) = .ok p ('j' :: '(' :: t) [] := by
+  have hn0 := name_eval p 'j' '(' t (Or.inl rfl) (Or.inl rfl)
+  have hn : eval G 13 {} (.ident "name") p ('j' :: '(' :: t) = .ok (p + 1) ('(' :: t) [Pair.mk "name" p (p + 1) []] := by
+    rw [eval_mono G (by decide : 10 ≤ 13) _ _ _ _ (by rw [hn0]; simp), hn0]
+  have hs := skip_plain_eval {} (p + 1) '(' t (plain_of _ (by simp))
+  have hc : eval G 13 {} (.str [Char.ofNat 58]) (p + 1) ('(' :: t) = .fail := by
+    simp [eval, matchStr]
+  apply opt_of_fail
+  refine ident_of_fail _ _ _ _ _ _ find_alias (by decide) (by decide) (by decide) ?_
+  rw [bodyCtx_alias]
+  exact seq_fail_second _ _ _ _ _ _ _ _ _ hn hs hc
+
+/-- at every depth: cut off, or the result `r` -/
+def Dec (c : Ctx) (e : Expr) (p : Nat) (s : List Char) (r : Res) : Prop :=
+  ∀ f, eval G f c e p s = .oof ∨ eval G f c e p s = r
+
+/-- cut off at every depth up to `N` -/
+def Cut (c : Ctx) (e : Expr) (p : Nat) (s : List Char) (N : Nat) : Prop :=
+  ∀ f, f ≤ N → eval G f c e p s = .oof
+
+theorem dec_of_eval {F c e p s r} (h : eval G F c e p s = r) (hr : r ≠ .oof) : Dec c e p s r :=
+  fun f => eval_decided G h hr f
+
+theorem opt_oof (f c a p s) (h : eval G f c a p s = .oof) : eval G (f + 1) c (.opt a) p s = .oof := by
+  simp [eval, h]
+theorem rep1_oof (f c a p s) (h : eval G f c a p s = .oof) : eval G (f + 1) c (.rep1 a) p s = .oof := by
+  simp [eval, h]
+
+theorem cut_seq1 {c a b p s N} (h : Cut c a p s N) : Cut c (.seq a b) p s (N + 1) := by
+  intro f hf
+  cases f with
+  | zero => exact zero_oof _ _ _ _
+  | succ f => exact seq_oof_first _ _ _ _ _ _ (h f (by omega))
+
+theorem cut_seq2 {c a b p s p1 s1 ps1 N} (ha : Dec c a p s (.ok p1 s1 ps1))
+    (hs : Dec { c with atom := .atomic } skipExpr p1 s1 (.ok p1 s1 []))
+    (hb : Cut c b p1 s1 N) : Cut c (.seq a b) p s (N + 1) := by
+  intro f hf
+  cases f with
+  | zero => exact zero_oof _ _ _ _
+  | succ f =>
+    rcases ha f with h1 | h1
+    · exact seq_oof_first _ _ _ _ _ _ h1
+    · exact seq_oof_second _ _ _ _ _ _ _ _ _ h1 (hs f) (hb f (by omega))
+
+theorem cut_choice1 {c a b p s N} (h : Cut c a p s N) : Cut c (.choice a b) p s (N + 1) := by
+  intro f hf
+  cases f with
+  | zero => exact zero_oof _ _ _ _
+  | succ f => exact choice_oof_first _ _ _ _ _ _ (h f (by omega))
+
+theorem cut_choice2 {c a b p s N} (ha : Dec c a p s .fail) (h : Cut c b p s N) : Cut c (.choice a b) p s (N + 1) := by
+  intro f hf
+  cases f with
+  | zero => exact zero_oof _ _ _ _
+  | succ f => exact choice_oof_second _ _ _ _ _ _ (ha f) (h f (by omega))
+
+theorem cut_opt {c a p s N} (h : Cut c a p s N) : Cut c (.opt a) p s (N + 1) := by
+  intro f hf
+  cases f with
+  | zero => exact zero_oof _ _ _ _
+  | succ f => exact opt_oof _ _ _ _ _ (h f (by omega))
+
+theorem cut_rep1 {c a p s N} (h : Cut c a p s N) : Cut c (.rep1 a) p s (N + 1) := by
+  intro f hf
+  cases f with
+  | zero => exact zero_oof _ _ _ _
+  | succ f => exact rep1_oof _ _ _ _ _ (h f (by omega))
+
+theorem cut_ident {c n r p s N} (hr : findRule G n = some r) (hcc : charClass n = none)
+    (h1 : n ≠ "SOI") (h2 : n ≠ "EOI") (hb : bodyCtx c r = c) (h : Cut c r.expr p s N) :
+    Cut c (.ident n) p s (N + 1) := by
+  intro f hf
+  cases f with
+  | zero => exact zero_oof _ _ _ _
+  | succ f =>
+    refine ident_oof _ _ _ _ _ _ hr hcc h1 h2 ?_
+    rw [hb]; exact h f (by omega)
+
+theorem dec_str {c l p s r} (h : matchStr l s = some r) : Dec c (.str l) p s (.ok (p + l.length) r []) := by
+  refine dec_of_eval (F := 1) ?_ (by simp)
+  simp [eval, h]
+
+theorem dec_skip (c : Ctx) (p : Nat) (ch : Char) (t : List Char) (h : Plain ch) :
+    Dec { c with atom := .atomic } skipExpr p (ch :: t) (.ok p (ch :: t) []) :=
+  dec_of_eval (skip_plain_eval c p ch t h) (by simp)
+
+theorem find_execdoc : findRule G "executable_document" = some r_executable_document := by rfl
+theorem find_execdef : findRule G "executable_definition" = some r_executable_definition := by rfl
+theorem find_opdef : findRule G "operation_definition" = some r_operation_definition := by rfl
+theorem find_selset : findRule G "selection_set" = some r_selection_set := by rfl
+theorem find_selection : findRule G "selection" = some r_selection := by rfl
+theorem find_field : findRule G "field" = some r_field := by rfl
+theorem find_arguments : findRule G "arguments" = some r_arguments := by rfl
+theorem find_argument : findRule G "argument" = some r_argument := by rfl
+
+/-- the tail of the witness document starts with a character `hidden::skip` leaves alone -/
+theorem nest_tail_head (n : Nat) : ∃ ch t, Plain ch ∧ nestList n ++ [')', '}'] = ch :: t := by
+  cases n with
+  | zero => exact ⟨')', ['}'], plain_of _ (by simp), by simp [nestList, rep]⟩
+  | succ k => exact ⟨'[', _, plain_of _ (by simp), by rw [nestList_succ]; rfl⟩
+
+theorem dec_soi (c : Ctx) (s : List Char) : Dec c (.ident "SOI") 0 s (.ok 0 s []) := by
+  refine dec_of_eval (F := 1) ?_ (by simp)
+  simp [eval]
+
+theorem dec_name (p : Nat) (a b : Char) (t : List Char) (ha : a = 'j' ∨ a = 'x') (hb : b = '(' ∨ b = ':') :
+    Dec {} (.ident "name") p (a :: b :: t) (.ok (p + 1) (b :: t) [Pair.mk "name" p (p + 1) []]) :=
+  dec_of_eval (name_eval p a b t ha hb) (by simp)
+
+theorem dec_chr (c : Ctx) (a : Char) (p : Nat) (s : List Char) :
+    Dec c (.str [a]) p (a :: s) (.ok (p + 1) s []) := by
+  refine dec_of_eval (F := 1) ?_ (by simp)
+  simp [eval, matchStr]
+
+/-- The descent from `executable_document` on `{j(x:` `[`ⁿ `]`ⁿ `)}`: 26 activations lie between
+    the document rule and the `value` of the argument, then 12 per bracket. -/
+theorem document_nest_oof (n : Nat) : Cut {} (.ident "executable_document") 0 (listDoc n) (12 * n + 26) := by
+  obtain ⟨ch, t, hch, hV⟩ := nest_tail_head n
+  have hdoc : listDoc n = '{' :: 'j' :: '(' :: 'x' :: ':' :: (nestList n ++ [')', '}']) := by
+    simp [listDoc]
+  rw [hdoc]
+  have A0 : Cut {} (.ident "value") 5 (nestList n ++ [')', '}']) (12 * n) :=
+    fun f hf => value_nest_oof n f {} 5 [')', '}'] hf
+  generalize nestList n ++ [')', '}'] = V at hV A0
+  subst hV
+  refine cut_ident find_execdoc (by decide) (by decide) (by decide) (by simp [bodyCtx, r_executable_document]) ?_
+  refine cut_seq2 (dec_soi _ _) (dec_skip _ _ _ _ (plain_of _ (by simp))) ?_
+  refine cut_seq1 ?_
+  refine cut_rep1 ?_
+  refine cut_ident find_execdef (by decide) (by decide) (by decide) (by simp [bodyCtx, r_executable_definition]) ?_
+  refine cut_choice1 ?_
+  refine cut_ident find_opdef (by decide) (by decide) (by decide) (by simp [bodyCtx, r_operation_definition]) ?_
+  refine cut_choice2 (dec_of_eval (nod_eval _ _) (by simp)) ?_
+  refine cut_ident find_selset (by decide) (by decide) (by decide) (by simp [bodyCtx, r_selection_set]) ?_
+  refine cut_seq2 (dec_chr _ _ _ _) (dec_skip _ _ _ _ (plain_of _ (by simp))) ?_
+  refine cut_seq1 ?_
+  refine cut_rep1 ?_
+  refine cut_ident find_selection (by decide) (by decide) (by decide) (by simp [bodyCtx, r_selection]) ?_
+  refine cut_choice1 ?_
+  refine cut_ident find_field (by decide) (by decide) (by decide) (by simp [bodyCtx, r_field]) ?_
+  refine cut_seq2 (dec_of_eval (optalias_eval _ _) (by simp)) (dec_skip _ _ _ _ (plain_of _ (by simp))) ?_
+  refine cut_seq2 (dec_name _ _ _ _ (Or.inl rfl) (Or.inl rfl)) (dec_skip _ _ _ _ (plain_of _ (by simp))) ?_
+  refine cut_seq1 ?_
+  refine cut_opt ?_
+  refine cut_ident find_arguments (by decide) (by decide) (by decide) (by simp [bodyCtx, r_arguments]) ?_
+  refine cut_seq2 (dec_chr _ _ _ _) (dec_skip _ _ _ _ (plain_of _ (by simp))) ?_
+  refine cut_seq1 ?_
+  refine cut_rep1 ?_
+  refine cut_ident find_argument (by decide) (by decide) (by decide) (by simp [bodyCtx, r_argument]) ?_
+  refine cut_seq2 (dec_name _ _ _ _ (Or.inr rfl) (Or.inr rfl)) (dec_skip _ _ _ _ (plain_of _ (by simp))) ?_
+  refine cut_seq2 (dec_chr _ _ _ _) (dec_skip _ _ _ _ hch) ?_
+  exact A0
+
+theorem le_depthFrom (rule : String) (s : List Char) : ∀ (span lo : Nat), lo ≤ depthFrom rule s lo span := by
+  intro span
+  induction span with
+  | zero => intro lo; simp [depthFrom]
+  | succ k ih =>
+    intro lo
+    simp only [depthFrom]
+    split
+    · have := ih (lo + 1); omega
+    · omega
+
+/-- the linear search passes every depth at which the descent is cut off -/
+theorem depthFrom_ge (rule : String) (s : List Char) (N : Nat)
+    (h : ∀ f, f ≤ N → cutOffAt rule s f = true) :
+    ∀ (span lo : Nat), lo ≤ N + 1 → N + 1 ≤ lo + span → N + 1 ≤ depthFrom rule s lo span := by
+  intro span
+  induction span with
+  | zero => intro lo h1 h2; simp only [depthFrom]; omega
+  | succ k ih =>
+    intro lo h1 h2
+    simp only [depthFrom]
+    by_cases hlo : lo ≤ N
+    · rw [if_pos (h lo hlo)]
+      exact ih (lo + 1) (by omega) (by omega)
+    · split
+      · have := le_depthFrom rule s k (lo + 1); omega
+      · omega
+
+theorem rep_length (s : List Char) (n : Nat) : (rep s n).length = n * s.length := by
+  induction n with
+  | zero => simp [rep]
+  | succ n ih => simp [rep, ih, Nat.add_mul]; omega
+
+theorem listDoc_length (n : Nat) : (listDoc n).length = 2 * n + 7 := by
+  simp [listDoc, nestList, rep_length]; omega
+
 
 end Descent
 
